@@ -9,8 +9,12 @@
 (* runs them (delete_bucket drops the cached handle BEFORE it calls the    *)
 (* storage, which may raise).  TLC checks that a lookup raises KeyError    *)
 (* exactly when the bucket does not exist, whatever the history of         *)
-(* creations, deletions, failed calls and re-creations.  Knobs give the    *)
-(* negative controls.                                                      *)
+(* creations, deletions, failed calls, re-creations and new wrapper        *)
+(* objects over the same storage.  Knobs give the negative controls.       *)
+(* The effect of each method is a function Eff of the state, so that the   *)
+(* trace judge (AwDatastoreTrace) evaluates the very same text on states   *)
+(* observed in the real wrapper, and TLC's full state graph of this module *)
+(* is replayed edge by edge on the real code.                              *)
 (***************************************************************************)
 EXTENDS Integers, FiniteSets, TLC
 
@@ -23,27 +27,26 @@ VARIABLES stored,    \* the storage's bucket table (set of names)
           out        \* what the last call did: [op, b, res]  res in {"handle", "ok", "KeyError", "raise"}
 vars == <<stored, inst, out>>
 
-Create(b) ==
-  IF b \in stored
-  THEN \* the storage refuses the duplicate (sqlite / peewee: UNIQUE constraint); self[bucket_id] is not reached
-       /\ UNCHANGED <<stored, inst>> /\ out' = [op |-> "create", b |-> b, res |-> "raise"]
-  ELSE /\ stored' = stored \cup {b}
-       /\ inst' = inst \cup {b}                                  \* return self[bucket_id]
-       /\ out' = [op |-> "create", b |-> b, res |-> "handle"]
-Delete(b) ==
-  /\ inst' = IF DropHandleOnDelete THEN inst \ {b} ELSE inst     \* first statement of delete_bucket
-  /\ IF b \in stored THEN stored' = stored \ {b} /\ out' = [op |-> "delete", b |-> b, res |-> "ok"]
-     ELSE UNCHANGED stored /\ out' = [op |-> "delete", b |-> b, res |-> "raise"]       \* ValueError from the storage
-Lookup(b) ==
-  /\ UNCHANGED stored
-  /\ IF b \in inst THEN UNCHANGED inst /\ out' = [op |-> "lookup", b |-> b, res |-> "handle"]
-     ELSE IF ~LookupAsksStorage \/ b \in stored THEN inst' = inst \cup {b} /\ out' = [op |-> "lookup", b |-> b, res |-> "handle"]
-     ELSE UNCHANGED inst /\ out' = [op |-> "lookup", b |-> b, res |-> "KeyError"]
-\* update_bucket and the listing go straight to the storage: no cache involved
-Update(b) == UNCHANGED <<stored, inst>> /\ out' = [op |-> "update", b |-> b, res |-> IF b \in stored THEN "ok" ELSE "raise"]
+\* effect of one method call on (S, I) = (bucket table, handle cache): [s, i, res]
+Eff(op, b, S, I) ==
+  CASE op = "create" ->
+         IF b \in S THEN [s |-> S, i |-> I, res |-> "raise"]        \* the storage refuses the duplicate; self[bucket_id] is not reached
+         ELSE [s |-> S \cup {b}, i |-> I \cup {b}, res |-> "handle"]  \* storage.create_bucket, then return self[bucket_id]
+    [] op = "delete" ->
+         LET I2 == IF DropHandleOnDelete THEN I \ {b} ELSE I IN      \* first statement of delete_bucket
+         IF b \in S THEN [s |-> S \ {b}, i |-> I2, res |-> "ok"] ELSE [s |-> S, i |-> I2, res |-> "raise"]
+    [] op = "lookup" ->
+         IF b \in I THEN [s |-> S, i |-> I, res |-> "handle"]
+         ELSE IF ~LookupAsksStorage \/ b \in S THEN [s |-> S, i |-> I \cup {b}, res |-> "handle"]
+         ELSE [s |-> S, i |-> I, res |-> "KeyError"]
+    [] op = "update" -> [s |-> S, i |-> I, res |-> IF b \in S THEN "ok" ELSE "raise"]   \* straight to the storage
+    [] op = "reopen" -> [s |-> S, i |-> {}, res |-> "ok"]            \* a new Datastore object over the same storage
+Methods == {"create", "delete", "lookup", "update", "reopen"}
 
+Call(op, b) == LET e == Eff(op, b, stored, inst) IN
+               stored' = e.s /\ inst' = e.i /\ out' = [op |-> op, b |-> b, res |-> e.res]
 Init == stored = {} /\ inst = {} /\ out = [op |-> "init", b |-> "-", res |-> "ok"]
-Next == \E b \in BucketNames : Create(b) \/ Delete(b) \/ Lookup(b) \/ Update(b)
+Next == \E op \in Methods, b \in BucketNames : Call(op, b)
 Spec == Init /\ [][Next]_vars
 
 \* the cache never names a bucket the storage does not have
